@@ -274,14 +274,23 @@ def request_table(ctx):
                        'there: a client that asks twice is queued twice')
         # caller bookkeeping: busNames[name] on the connection set whenever
         # the caller ends up in the queue
-        if effect in ('head', 'queued') and not atoms.get('QUEUED'):
+        stays = effect in ('head', 'queued') or (
+            atoms.get('QUEUED') and code == 2)
+        if stays:
+            flags = ('param', rq.params()[2])
             okb = any(ev[0] == 'setsub' and kind(ev[1]) == 'attr' and
                       ev[1][2] == 'busNames' and ev[1] != table and
-                      ev[2] == name for ev in iter_events(p.trace))
-            ctx.ob('C13.D2', rq.qualname, 'connection-records-name', okb,
-                   'a connection that owns or waits for a name must record '
-                   'it (with its allow-replacement flag)',
-                   nontrivial=False)
+                      ev[2] == name and contains(
+                          ev[3], lambda x: kind(x) == 'binop' and
+                          x[1] == '&' and x[2] == flags and x[3] == C(1))
+                      for ev in iter_events(p.trace))
+            ctx.ob('C13.D2', rq.qualname, 'records-allow-replacement:%s'
+                   % ('already-queued' if atoms.get('QUEUED') else
+                      'owner' if atoms.get('IS_OWNER') else effect), okb,
+                   'every request that leaves the caller owning or waiting '
+                   'for the name must (re)record the ALLOW_REPLACEMENT flag '
+                   'of THIS request on the connection; a later '
+                   'REPLACE_EXISTING by another client is decided on it')
 
 
 def release_rules(ctx):
